@@ -2,10 +2,17 @@
   Model driver for C02.
   * `mono:32`  `<basic 0/1> <n> (x y left)*` → `<ntris> (a b c)*` from the monotone-stage model
   * `chk_tiling` the slab checker in tiling mode on the real fill output
+  * `chk_tilingbuf` the same checker on the triangles of a fill as resolved through caller-owned
+    buffers with prior contents (any index type)
+  * `bufidx` `<ty> <n0> <ni0> <offset> <invert> <core ok> <len> (v | t a b c)*` → result, final
+    vertex / index counts, prior contents kept, every new stored index: the fill skeleton over the
+    `BuffersBuilder` model (Model/Tess/GeomBuilder.lean, Skeleton.lean) the theorems of
+    Props/C04.lean and Props/C02d.lean are about
 -/
 import LyonVerif.Drive.Common
 import LyonVerif.Drive.SlabIO
 import LyonVerif.Model.Tess.Monotone
+import LyonVerif.Model.Tess.Skeleton
 
 namespace Lyon.Drive.C02
 open Lyon Lyon.Drive Lyon.Mono
@@ -25,9 +32,54 @@ def mono (v : Array String) : String :=
   let seq : List (P α × Bool) := rdSeq v n 2
   fTris (if basic then Basic.run seq else Adv.run seq)
 
+/-! ### `bufidx` -/
+
+open Lyon.Tess in
+def idxCfgOf (ty : String) : IdxCfg :=
+  match ty with
+  | "u16" => IndexTy.u16.cfg
+  | "u32" => IndexTy.u32.cfg
+  | "i32" => IndexTy.i32.cfg
+  | _ => IndexTy.usize.cfg
+
+open Lyon.Tess in
+def rdScript (v : Array String) : Nat → Nat → List CReq
+  | 0, _ => []
+  | n+1, i =>
+    if v.getD i "" == "t" then .t (rdNat v (i+1)) (rdNat v (i+2)) (rdNat v (i+3)) :: rdScript v n (i+4)
+    else .v 0 :: rdScript v n (i+1)
+
+open Lyon.Tess in
+def resName : Option TErr → String
+  | none => "ok"
+  | some (.geometryBuilder .tooManyVertices) => "gb:TooManyVertices"
+  | some (.geometryBuilder .invalidVertex) => "gb:InvalidVertex"
+  | some _ => "err"
+
+open Lyon.Tess in
+/-- prior vertices carry payload 1, the fill's vertices payload 0 -/
+def bufidx (v : Array String) : String :=
+  if v.getD 5 "" == "recording-panicked" then "recording-panicked" else
+  let cfg := idxCfgOf (v.getD 0 "")
+  let n0 := rdNat v 1
+  let ni0 := rdNat v 2
+  let off := rdNat v 3
+  let inv := rdNat v 4 == 1
+  let coreOk := rdNat v 5 == 1
+  let core := rdScript v (rdNat v 6) 7
+  let B : Buffers := ⟨List.replicate n0 1, List.replicate ni0 0⟩
+  let b := (BB.new B cfg).withVertexOffset off
+  let S := if inv then bbSink.invert else bbSink
+  let o := tessellateImpl S true core (if coreOk then none else some (.internal 0)) b
+  let kept := o.st.buf.vertices.take n0 == B.vertices && o.st.buf.indices.take ni0 == B.indices
+  unwords ([resName o.result, toString o.st.buf.vertices.length, toString o.st.buf.indices.length,
+    if kept then "1" else "0"] ++ (o.st.buf.indices.drop ni0).map toString)
+
 def families : List Family := [
   ⟨"mono", mono (α := Float32), mono (α := Float)⟩,
-  Family.plain "chk_tiling" (fun v => SlabIO.handle "fill" false v 0) ]
+  Family.plain "chk_tiling" (fun v => SlabIO.handle "fill" false v 0),
+  Family.plain "chk_tilingbuf" (fun v => SlabIO.handle "fill" false v 0),
+  Family.plain "bufidx" bufidx ]
 
 end Lyon.Drive.C02
 
